@@ -24,6 +24,7 @@ type evaluator struct {
 	implFor types.Type // when verifying an implementation of an interface contract
 	preloop *state // state just before the enclosing loop's havoc (preloop(e))
 	loopMark *T
+	localsSt *state // state in which local variables are read (old()/preloop() only switch the heap)
 	inLoop bool
 }
 
@@ -199,8 +200,12 @@ func (ev *evaluator) ident(name string) Val {
 	}
 	// local variable by name (loop invariants / at clauses)
 	if ev.frame != nil {
+		lst := ev.st
+		if ev.localsSt != nil {
+			lst = ev.localsSt
+		}
 		if cell := ev.frame.lookupLocal(name, ev.pos); cell != nil {
-			v, ok := ev.st.cells[cell]
+			v, ok := lst.cells[cell]
 			if !ok {
 				ev.fail("local %s is not initialised at this point", name)
 			}
@@ -254,7 +259,25 @@ func (ev *evaluator) unary(x *EUn) Val {
 				return Val{ptr: p, t: p.ref, typ: types.NewPointer(p.base)}
 			}
 		}
-		ev.fail("& is only supported on local variables whose address is taken in the code")
+		// address of a field of a heap object: &p.f
+		if sel, ok := x.X.(*ESel); ok {
+			base := ev.eval(sel.X)
+			if _, isPtr := base.typ.Underlying().(*types.Pointer); isPtr {
+				bp := c.ptrOf(base)
+				stt, ok := bp.elemType().Underlying().(*types.Struct)
+				if !ok {
+					ev.fail("&x.f: x does not point to a struct")
+				}
+				for i := 0; i < stt.NumFields(); i++ {
+					if stt.Field(i).Name() == sel.Name {
+						np := bp.extend(pathEl{field: i, typ: stt.Field(i).Type()})
+						return Val{ptr: np, typ: types.NewPointer(stt.Field(i).Type())}
+					}
+				}
+				ev.fail("no field %s", sel.Name)
+			}
+		}
+		ev.fail("& is only supported on local variables whose address is taken in the code and on fields of pointed-to structs")
 	}
 	v := ev.eval(x.X)
 	switch x.Op {
@@ -758,6 +781,9 @@ func (ev *evaluator) call(x *ECall) Val {
 			ev.fail("old() is not available here")
 		}
 		n := *ev
+		if n.localsSt == nil {
+			n.localsSt = ev.st
+		}
 		n.st = ev.old
 		return n.eval(x.Args[0])
 	case "preloop":
